@@ -15,8 +15,12 @@ pub fn evals(prop: &str) -> Vec<(&'static str, &'static str)> {
     if is_pair(prop) {
         let mut v = vec![("corr_pair", "corr_pair")];
         match prop {
-            "C06" => v.extend([("prop_same_tokens", "prop_same_tokens"), ("prop_sorted_derives", "prop_sorted_derives")]),
-            "C09" => v.extend([("prop_frame", "prop_frame"), ("prop_switches", "prop_switches")]),
+            "C06" => v.extend([("prop_same_tokens", "prop_same_tokens"), ("prop_sorted_derives", "prop_sorted_derives"),
+                              ("prop_sorted_attrs", "prop_sorted_attrs"), ("corr_attr_keys", "corr_attr_keys"),
+                              ("hyp_attrs_ge2", "hyp_attrs_ge2"), ("hyp_subs_permuted", "hyp_subs_permuted"),
+                              ("hyp_last_wins_differ", "hyp_last_wins_differ")]),
+            "C09" => v.extend([("prop_frame", "prop_frame"), ("prop_switches", "prop_switches"),
+                              ("hyp_compact_marker", "hyp_compact_marker"), ("hyp_codec_off_dirty", "hyp_codec_off_dirty")]),
             // C17 runs on the case type c17_case (Corr/RunC17.v): a pair + the description-crate artefacts
             // of the retained ids; the pair checkers are lifted (same tag names)
             "C17" => {
@@ -49,7 +53,8 @@ pub fn evals(prop: &str) -> Vec<(&'static str, &'static str)> {
         "C01" => v.extend([("prop_faithful", "prop_faithful"), ("prop_faithful_all", "prop_faithful_all"),
                            ("known_F3_conflation", "known_F3_conflation"), ("corr_teq_trace", "corr_teq_trace"),
                            ("hyp_coincidence_free", "hyp_coincidence_free"), ("hyp_cf_reg", "hyp_cf_reg")]),
-        "C02" => v.extend([("prop_syn_parses", "prop_syn_parses"), ("prop_closed", "prop_closed")]),
+        "C02" => v.extend([("prop_syn_parses", "prop_syn_parses"), ("prop_closed", "prop_closed"), ("prop_sized", "prop_sized"),
+                           ("hyp_recursive_items", "hyp_recursive_items")]),
         "C07" => v.extend([("prop_subst", "prop_subst"), ("prop_faithful", "prop_faithful"), ("hyp_has_subst", "hyp_has_subst"), ("known_F5", "known_F5")]),
         "C08" => v.extend([("prop_derives_exact", "prop_derives_exact"), ("hyp_has_recursive", "hyp_has_recursive")]),
         "C10" => v.extend([("prop_fault_expect", "prop_fault_expect"), ("prop_wf_total", "prop_wf_total"), ("hyp_wf", "hyp_wf")]),
@@ -63,22 +68,29 @@ pub fn evals(prop: &str) -> Vec<(&'static str, &'static str)> {
 pub fn rule(prop: &str) -> &'static str {
     match prop {
         "C10" => "fault enumeration: for each well-formed base registry every entry id, every reference site and every field list receives one fault (wrong id / missing id / mixed fields), plus settings without compact / bits path, plus fault-free registries, plus the out-of-class stream outside:compact-field (compact fields with tuple / array / unit inner types: panic, model and implementation alike); non-trivial = distinct (registry, settings) with at least one generated item",
-        "C06" => "pairs of runs on equal inputs: permuted / repeated builder histories and fresh settings objects; outputs must be token-identical; non-trivial = distinct pair with at least one generated item",
-        "C09" => "pairs of settings differing in exactly one switch (root, docs, codec, alloc, compact path, bits path) over the arm-coverage corpus and random programs",
+        "C06" => "pairs of runs on equal inputs: permuted / repeated builder histories (derive / attribute calls permuted, one repeated; stream permuted-subs: substitute calls with pairwise distinct sources permuted together with everything else) and fresh settings objects; outputs must be token-identical; two independent de-duplication runs; stream subs-last-wins (kind last-wins): one source inserted twice with two targets in both orders - outputs need not agree, only the model must reproduce both; derive AND attribute lists of every observed item strictly sorted; non-trivial = distinct pair with at least one generated item",
+        "C09" => "pairs of settings differing in exactly one switch (root, docs, codec, alloc, compact path, bits path) over the arm-coverage corpus (incl. the hand-built prelude registries: every arm of the prelude table) and random programs: a random base point with its six flips, and stream cube:* = all 64 switch combinations on small corpus registries (all corpus registries in thorough), every edge of the switch cube as one pair",
+        "C02" => "arm-coverage corpus (incl. the hand-built prelude registries: recursion through every heap collection) x settings, registries generated as programs with random settings histories, and stream dedup-family: same-path family programs after ensure_unique_type_paths (the de-duplicated registry is the input); non-trivial = distinct (registry, settings) with at least one generated item",
         "C17" => "pairs (registry, consistently renumbered registry) and (registry, retain()-ed sub-registry: three root sets per registry - one random id, two random ids, an instantiation of a generic definition - alternately with the registry's random settings and with settings free of path-specific derives / substitutes); every retain pair carries, for up to 12 retained ids (old id, new id of scale-info's id map), type_description and scale_value_from_seed (2 seeds) on both registries and the real encode/decode round trips of each value against both registries",
         _ => "arm-coverage corpus x settings, then registries generated as programs (generic struct/enum definitions in nested modules + closed instantiations, interned in scale-info order) with random settings histories; non-trivial = distinct (registry, settings) with at least one generated item",
     }
 }
 
 fn corpus_regs() -> Vec<(String, serde_json::Value, PortableRegistry)> {
-    corpus::programs()
+    let mut v: Vec<(String, serde_json::Value, PortableRegistry)> = corpus::programs()
         .into_iter()
         .map(|(n, p)| {
             let (rj, _) = reggen::build(&p);
             let reg = reggen::to_registry(&rj);
             (n, rj, reg)
         })
-        .collect()
+        .collect();
+    // hand-built JSON registries: every arm of the prelude table (reachable and synthetic)
+    for (n, rj) in corpus::json_registries() {
+        let reg = reggen::to_registry(&rj);
+        v.push((n, rj, reg));
+    }
+    v
 }
 
 fn base_spec(reg: &PortableRegistry) -> SettingsSpec {
@@ -377,6 +389,69 @@ pub fn cases(prop: &str, tier: &str, ctx: &mut Ctx, rng: &mut Rng) {
                 ctx.push_pair("permuted-history", "same", (reg, &spec), (reg, &spec2));
                 ctx.push_pair("repeated-run", "same", (reg, &spec), (reg, &spec));
             }
+            // substitutes registered in a different order: k >= 2 substitute calls with pairwise DISTINCT
+            // sources (last-insert-wins only matters for equal sources), all three builder calls, permuted
+            // together with the derive / attribute calls
+            let no_subs = SetCfg { derives: true, substitutes: false, switches: true, missing_paths: false };
+            let targets = ["::ext::Subst", "crate::ext::Other", "::ext::Gen<A>", "::ext::deep::Path", "::ext::Third<A, A>"];
+            for (_rj, reg) in &regs {
+                let mut paths: Vec<Vec<String>> = item_paths(reg).into_iter().filter(|p| p[0] != "bitvec").collect();
+                if paths.len() < 2 {
+                    continue;
+                }
+                rng.shuffle(&mut paths);
+                let k = rng.range(2, 4).min(paths.len());
+                let mut spec = rand_settings(rng, reg, &no_subs);
+                let mut sub_ops = vec![];
+                for (i, p) in paths[..k].iter().enumerate() {
+                    let np = reg.types.iter().find(|t| &t.ty.path.segments == p)
+                        .map(|t| t.ty.type_params.iter().filter(|q| q.ty.is_some()).count()).unwrap_or(0);
+                    let tgt = targets[(i + rng.below(targets.len())) % targets.len()].to_string();
+                    let src = if np >= 1 && tgt.contains("<A") { format!("{}<A>", p.join("::")) } else { p.join("::") };
+                    let tgt = if src.ends_with("<A>") { tgt } else { tgt.split('<').next().unwrap().to_string() };
+                    sub_ops.push(match rng.below(3) {
+                        0 => OpSpec::SubInsertIfAbsent(src, tgt),
+                        1 => OpSpec::SubExtend(vec![(src, tgt)]),
+                        _ => OpSpec::SubInsert(src, tgt),
+                    });
+                }
+                spec.ops.extend(sub_ops.iter().cloned());
+                let mut spec2 = spec.clone();
+                rng.shuffle(&mut spec2.ops);
+                // at least the substitute calls change their relative order
+                let subs_of = |ops: &Vec<OpSpec>| -> Vec<String> {
+                    ops.iter().filter(|o| matches!(o, OpSpec::SubInsert(..) | OpSpec::SubInsertIfAbsent(..) | OpSpec::SubExtend(..)))
+                        .map(|o| format!("{o:?}")).collect()
+                };
+                if subs_of(&spec.ops) == subs_of(&spec2.ops) {
+                    let idx: Vec<usize> = spec2.ops.iter().enumerate()
+                        .filter(|(_, o)| matches!(o, OpSpec::SubInsert(..) | OpSpec::SubInsertIfAbsent(..) | OpSpec::SubExtend(..)) && !format!("{o:?}").contains("bitvec"))
+                        .map(|(i, _)| i).collect();
+                    if idx.len() >= 2 {
+                        spec2.ops.swap(idx[0], idx[idx.len() - 1]);
+                    }
+                }
+                ctx.push_pair("permuted-subs", "same", (reg, &spec), (reg, &spec2));
+                // one source inserted twice with different targets, in both orders: the settings differ
+                // (last insert wins), the outputs follow the model
+                // prefer a path that is the type of a field of another item (the outputs then differ)
+                let used = |p: &Vec<String>| reg.types.iter().any(|t| t.ty.path.segments.len() >= 2 && &t.ty.path.segments != p && {
+                    let fs: Vec<u32> = match &t.ty.type_def {
+                        scale_info::TypeDef::Composite(c) => c.fields.iter().map(|f| f.ty.id).collect(),
+                        scale_info::TypeDef::Variant(v) => v.variants.iter().flat_map(|x| x.fields.iter().map(|f| f.ty.id)).collect(),
+                        _ => vec![],
+                    };
+                    fs.iter().any(|i| reg.resolve(*i).map(|x| &x.path.segments == p).unwrap_or(false))
+                });
+                let p = paths.iter().find(|p| used(p)).unwrap_or(&paths[0]).join("::");
+                let mut sa = rand_settings(rng, reg, &no_subs);
+                let mut sb = sa.clone();
+                sa.ops.push(OpSpec::SubInsert(p.clone(), "::ext::First".into()));
+                sa.ops.push(OpSpec::SubInsert(p.clone(), "::ext::Second".into()));
+                sb.ops.push(OpSpec::SubInsert(p.clone(), "::ext::Second".into()));
+                sb.ops.push(OpSpec::SubInsert(p.clone(), "::ext::First".into()));
+                ctx.push_pair("subs-last-wins", "last-wins", (reg, &sa), (reg, &sb));
+            }
             // the de-duplicated registry: two independent runs of ensure_unique_type_paths on
             // registries with several clashing paths (fresh hash maps each time)
             for _ in 0..(60 * scale) {
@@ -420,6 +495,34 @@ pub fn cases(prop: &str, tier: &str, ctx: &mut Ctx, rng: &mut Rng) {
                     flip("alloc", &|s| s.alloc = match &s.alloc { None => Some("::alloc".into()), Some(a) if a == "::alloc" => Some("::my_crate::alloc_crate".into()), _ => None });
                     flip("compact_path", &|s| s.compact = Some(if s.compact.as_deref() == Some("::codec::Compact") { "::other::Cpt".into() } else { "::codec::Compact".into() }));
                     flip("bits_path", &|s| s.bits = Some(if s.bits.as_deref() == Some("::bits::DecodedBits") { "::other::Bits".into() } else { "::bits::DecodedBits".into() }));
+                }
+            }
+            // all 2^6 combinations of the switches; every edge of the cube (two combinations that differ
+            // in one switch) is one pair for prop_frame, every vertex is checked by prop_switches
+            let cube_regs: Vec<&(String, serde_json::Value, PortableRegistry)> = corp.iter()
+                .filter(|(n, _, r)| thorough && r.types.len() <= 80 || n == "compact" || n == "bits" || n == "prelude-min")
+                .collect();
+            let kinds = ["root", "docs", "codec", "alloc", "compact_path", "bits_path"];
+            for (n, _, reg) in cube_regs {
+                let vertex = |bits: usize| -> SettingsSpec {
+                    let mut s = base_spec(reg);
+                    s.ops.push(OpSpec::DerivesAll(vec!["::codec::Encode".into(), "Debug".into()]));
+                    s.root = if bits & 1 == 0 { "types".into() } else { "other_root".into() };
+                    s.docs = bits & 2 == 0;
+                    s.codec = bits & 4 == 0;
+                    s.alloc = if bits & 8 == 0 { None } else { Some("::my_crate::alloc_crate".into()) };
+                    s.compact = Some(if bits & 16 == 0 { "::codec::Compact".into() } else { "::other::Cpt".into() });
+                    s.bits = Some(if bits & 32 == 0 { "::bits::DecodedBits".into() } else { "::other::Bits".into() });
+                    s
+                };
+                for v in 0..64usize {
+                    for (k, kind) in kinds.iter().enumerate() {
+                        if v & (1 << k) == 0 {
+                            let a = vertex(v);
+                            let b = vertex(v | (1 << k));
+                            ctx.push_pair(&format!("cube:{n}"), kind, (reg, &a), (reg, &b));
+                        }
+                    }
                 }
             }
         }
@@ -576,6 +679,26 @@ pub fn cases(prop: &str, tier: &str, ctx: &mut Ctx, rng: &mut Rng) {
                     let (rj, _) = reggen::build(&p);
                     let reg = reggen::to_registry(&rj);
                     ctx.push_reg("family", &reg, Some(&rj), &base_spec(&reg));
+                }
+            }
+            if prop == "C02" {
+                // quantifier "after path de-duplication when paths repeat": same-path families run through
+                // ensure_unique_type_paths; the de-duplicated registry is the input of the case
+                for _ in 0..(80 * scale) {
+                    let p = crate::famgen::family_program(rng);
+                    let (rj, _) = reggen::build(&p);
+                    let mut a = reggen::to_registry(&rj);
+                    let before: Vec<Vec<String>> = a.types.iter().map(|t| t.ty.path.segments.clone()).collect();
+                    let r = std::panic::catch_unwind(move || { let r = scale_typegen::utils::ensure_unique_type_paths(&mut a); (r.is_ok(), a) });
+                    if let Ok((true, a)) = r {
+                        let renamed = a.types.iter().zip(before.iter()).any(|(t, b)| &t.ty.path.segments != b);
+                        let stream = if renamed { "dedup-family" } else { "dedup-family:unchanged" };
+                        ctx.push_reg(stream, &a, None, &base_spec(&a));
+                        if renamed {
+                            let spec = rand_settings(rng, &a, &full);
+                            ctx.push_reg(stream, &a, None, &spec);
+                        }
+                    }
                 }
             }
             random_cases(ctx, rng, 300 * scale, &GenCfg::default(), &full);
